@@ -54,8 +54,8 @@ def pinst(ident: str, cls_: R) -> R:
     return R("pinst", ident=K(ident), cls=cls_)
 
 
-def hostile(ident: str, callable_: bool = True) -> R:
-    return R("hostile", ident=K(ident), callable=K(callable_))
+def hostile(ident: str, callable_: bool = True, endless: bool = False) -> R:
+    return R("hostile", ident=K(ident), callable=K(callable_), endless=K(endless))
 
 
 def frame(co: R, f_globals: Dict[str, V], f_locals: Dict[str, V], back: Optional[R] = None) -> R:
@@ -108,7 +108,11 @@ class LookupScenario:
     def _hostile_answer(obj: R, attr: str) -> V:
         """what the hook answers: some object of its own for __code__ (never the frame's code), nothing for the rest - the
         answers are irrelevant to the rule, which is about the hook having run"""
-        return R("opaque", ident=K(f"{obj.fields['ident'].v}.{attr}")) if attr == "__code__" else K(None)
+        if attr == "__code__":
+            return R("opaque", ident=K(f"{obj.fields['ident'].v}.{attr}"))
+        if attr == "__wrapped__" and obj.fields.get("endless") == K(True):
+            return obj  # a proxy answers with a proxy, for ever (unittest.mock.MagicMock, a lazy-import placeholder)
+        return K(None)
 
     def type_of(self, v: V) -> V:
         if isinstance(v, R) and v.kind == "pfunc":
@@ -153,7 +157,7 @@ class LookupScenario:
             if attr == "__code__":
                 return obj.fields["code"]
             if attr == "__wrapped__" and "wrapped" in obj.fields:
-                return obj.fields["wrapped"]
+                return obj if obj.fields["wrapped"] == K("<itself>") else obj.fields["wrapped"]
             if attr in ("__name__", "__qualname__"):
                 return obj.fields["code"].fields["co_name"]
             st.pending = st.pending or "AttributeError"
@@ -183,6 +187,8 @@ class LookupScenario:
             return args[0]  # consumed once by the loops of the look-up (single use is R-ITER.1's business)
         if d == "id" and len(args) == 1:
             return R("id", of=args[0])
+        if d == "sys.getrecursionlimit" and not args:
+            return K(1000)
         if d == "callable" and len(args) == 1:
             a = args[0]
             if isinstance(a, R) and a.kind == "hostile":
@@ -250,7 +256,12 @@ class LookupScenario:
         return None
 
     def run(self, fr: R) -> Tuple[str, Any]:
-        outs = self.ri.run({self.fi.positional_params()[0]: fr})
+        try:
+            outs = self.ri.run({self.fi.positional_params()[0]: fr})
+        except AnalysisError as e:
+            if "does not terminate" in str(e):
+                return ("hang", str(e)[:160])
+            raise
         if len(outs) != 1:
             raise AnalysisError(f"{self.fi.fq}: {len(outs)} outcomes for one world")
         o = outs[0]
@@ -335,6 +346,19 @@ def extra_worlds() -> List[Tuple[str, R, Optional[R]]]:
     return out
 
 
+def endless_worlds() -> List[Tuple[str, R, Optional[R]]]:
+    """`__wrapped__` chains that never reach None: the look-up must give up on them and go on (inspect.unwrap raises ValueError)"""
+    CO = code("CODE", "f", 1, ("self", "x"))
+    target = pfunc("target", CO)
+    C = pclass("C", {"f": target})
+    cyc = pfunc("a function that is its own __wrapped__", code("CYC", "f", 0, ()), wrapped=K("<itself>"))  # type: ignore[arg-type]
+    return [
+        ("the global named like the method is a function whose __wrapped__ is itself; the code runs as a method of the first argument", frame(CO, {"f": cyc}, {"self": pinst("c1", C)}), target),
+        ("the global named like the method is a proxy that answers every attribute with a proxy; the code runs as a method of the first argument",
+         frame(CO, {"f": hostile("proxy global named f", endless=True)}, {"self": pinst("c1", C)}), target),
+    ]
+
+
 def hostile_chain_world() -> Tuple[str, R]:
     CO = code("CODE", "f", 1, ("self", "x"))
     w = pfunc("wrapper", code("WRAP", "wrapper", 0, ()), wrapped=hostile("__wrapped__ of a global function"))
@@ -390,4 +414,13 @@ def hostile_results(repo: Repo) -> List[Tuple[str, str, Any, List[Tuple[str, str
         sc = LookupScenario(repo)
         k, res = sc.run(fr)
         out.append((what, k, res, list(sc.touches)))
+    return out
+
+
+def endless_results(repo: Repo) -> List[Tuple[str, Optional[R], str, Any]]:
+    out = []
+    for what, fr, want in endless_worlds():
+        sc = LookupScenario(repo)
+        k, res = sc.run(fr)
+        out.append((what, want, k, res))
     return out
